@@ -186,7 +186,7 @@ def _mask(ex, x, d):
 
 
 @scenario('C15', 'grad_api', ['torchtt.grad.watch', 'torchtt.grad.unwatch', 'torchtt.grad.grad', 'torchtt.grad.grad_list', 'torchtt.grad.watch_list'],
-          quick=[dict(case=c) for c in ('watch_all', 'watch_some', 'unwatch', 'grad_all', 'grad_indices', 'grad_indices_permuted', 'grad_list_flat', 'grad_list_nested', 'watch_list')],
+          quick=[dict(case=c) for c in ('watch_all', 'watch_some', 'unwatch', 'grad_all', 'grad_indices', 'grad_indices_permuted', 'grad_list_flat', 'grad_list_nested', 'watch_list', 'grad_twice', 'grad_list_twice')],
           replay='grad_api')
 def grad_api(ob, case):
     """watch/unwatch toggle requires_grad of the selected cores and nothing else; grad / grad_list return the .grad of the cores, in the
@@ -222,6 +222,34 @@ def grad_api(ob, case):
     for c in cores:
         c.requires_grad = True
     val_ = ex.call(ex.getattr(x, 'sum'), [])
+    if case in ('grad_twice', 'grad_list_twice'):
+        # history: two gradients of two different values w.r.t. the same watched tensor.  The second call returns the derivative of
+        # the SECOND value (torch accumulates into .grad unless it is cleared), and the list returned first keeps its value.
+        sq = ex.binop('Mult', x, x)
+        val2 = ex.call(ex.getattr(sq, 'sum'), [])
+        if case == 'grad_twice':
+            g1 = ex.call(G['grad'], [val_, x])
+            g1_tags = [t.ghost.get('grad_of') if isinstance(t, STensor) else None for t in g1]
+            g = ex.call(G['grad'], [val2, x])
+        else:
+            g1 = ex.call(G['grad_list'], [val_, [x]])
+            g1_tags = [t.ghost.get('grad_of') if isinstance(t, STensor) else None for t in g1]
+            g = ex.call(G['grad_list'], [val2, [x]])
+        ob.prove('is_list', isinstance(g, list) and len(g) == d)
+        if isinstance(g, list) and len(g) == d:
+            for j, (gt, ct) in enumerate(zip(g, cores)):
+                tag = gt.ghost.get('grad_of') if isinstance(gt, STensor) else None
+                if tag is not None and tag[0] == 'accumulated':
+                    ob.fail('second_call.entry%d_is_the_derivative_of_the_second_value' % j, 'post', 'the returned tensor holds the SUM of the gradients of both calls (accumulated .grad)')
+                else:
+                    ob.prove('second_call.entry%d_is_the_derivative_of_the_second_value' % j, bool(tag is not None and tag[0] is val2 and tag[1] is ct))
+            for j, (t1, tag1) in enumerate(zip(g1, g1_tags)):
+                now = t1.ghost.get('grad_of') if isinstance(t1, STensor) else None
+                if now is not tag1:
+                    ob.fail('first_result.entry%d_keeps_its_value' % j, 'frame', 'the tensor returned by the first call was updated in place by the second call')
+                else:
+                    ob.ok('first_result.entry%d_keeps_its_value' % j, 'frame')
+        return
     if case == 'grad_all':
         g = ex.call(G['grad'], [val_, x])
         order = [0, 1, 2]
